@@ -381,6 +381,10 @@ pub struct Scenario {
     /// scheduling points inside the engine (every expression node), not only at document calls
     #[serde(default)]
     pub engine_seams: bool,
+    /// > 0: the threads of the scenario also offer the scheduler a decision after about this many of
+    /// their own heap allocations (allocation seam) while they are inside the engine
+    #[serde(default)]
+    pub alloc_mean: u32,
     #[serde(default)]
     pub ops: Vec<Op>,
     #[serde(default)]
@@ -500,7 +504,7 @@ pub static REVERSE_RULES: std::sync::atomic::AtomicBool = std::sync::atomic::Ato
 pub const CUT_DIGEST: u64 = 0xc07_5407_c07_5407;
 
 fn digest_of(d: &Digest, stats: &Stats) -> u64 {
-    if stats.get("heavy_scenarios_cut_short") > 0 {
+    if stats.get("heavy_scenarios_cut_short") > 0 || stats.get("digest_not_comparable_between_processes") > 0 {
         CUT_DIGEST
     } else {
         d.finish()
